@@ -123,6 +123,7 @@ type fsmWorld struct {
 	obs   *bufio.Writer
 	nOps  int
 	hist  map[string]int
+	mon   *fsmMonitor
 }
 
 func (w *fsmWorld) emit(op, ob string) {
@@ -185,6 +186,9 @@ func (w *fsmWorld) do(idx int, ev string, args []string) (string, bool) {
 	resp, derr, p := safeDo(inst, ev, buildReq(args))
 	ob := observe(inst, resp, derr, p)
 	w.last = inst
+	if w.mon != nil {
+		w.mon.check(w.store[idx], inst, ev, args, resp != nil && derr == nil && !p, resp == nil, p, idx)
+	}
 	w.emit(fmt.Sprintf("do %d %s %s", idx, ev, strings.Join(args, " ")), ob)
 	w.hist[ev+"/"+strings.SplitN(ob, " ", 2)[0]]++
 	return ob, resp != nil && derr == nil && !p
@@ -306,6 +310,7 @@ type fsmStats struct {
 	Hist                                                         map[string]int
 	Monitors                                                     []string
 	Samples                                                      []string
+	MonitorChecks                                                map[string]int
 }
 
 // exploreFSM: BFS to the fixpoint (or maxStates) for n participants and threshold t.
@@ -506,6 +511,7 @@ func runFsmDiff(outDir string, seed int64, tier string) {
 	fb, _ := os.Create(filepath.Join(outDir, "go_obs.txt"))
 	w := &fsmWorld{ops: bufio.NewWriterSize(fo, 1<<20), obs: bufio.NewWriterSize(fb, 1<<20), hist: map[string]int{}}
 	st := &fsmStats{Exhaustive: true}
+	w.mon = &fsmMonitor{st: st, seen: map[string]bool{}}
 	rng := rand.New(rand.NewSource(seed))
 	type cfg struct{ n, t int }
 	var cfgs []cfg
